@@ -9,7 +9,26 @@ def run(s):
     v = with_models(new_verifier())
     s.ver = v
     v.load_contracts("contracts.schema")
-    s.attempt_all([task(v, cn, lambda cn=cn: v.verify(cn, "C04")) for cn in NAMES])
+    tasks = [task(v, cn, lambda cn=cn: v.verify(cn, "C04")) for cn in NAMES]
+    # the fourth construction path, AOEF loading: the real assemble_soundevent of the adapters whose data class carries an invariant
+    import props.C01 as C01
+    from props.aoef_rt import load_side_obligations, AOEF
+    v1 = C01.setup()
+    v1.load_contracts("contracts.schema")
+    sm = v1.repo.module("contracts.schema")
+
+    def pred(name, getter):
+        def accepts(ex, y, q):
+            return v1.pred_node(ex, sm, sm.defs[name], getter(y), q)
+        return accepts
+    unit = lambda y: dict(x=y.fields["score"])
+    for short, acls, ocls, name, getter in (
+            ("match", AOEF + "match.MatchAdapter", AOEF + "match.MatchObject", "match_ok",
+             lambda y: dict(source=y.fields["source"], target=y.fields["target"], affinity=y.fields["affinity"], score=y.fields["score"])),
+            ("sound_event_prediction", AOEF + "sound_event_prediction.SoundEventPredictionAdapter", AOEF + "sound_event_prediction.SoundEventPredictionObject", "in_unit", unit),
+            ("sequence_prediction", AOEF + "sequence_prediction.SequencePredictionAdapter", AOEF + "sequence_prediction.SequencePredictionObject", "in_unit", unit)):
+        tasks.append(task(v1, f"aoef-load[{short}]", lambda acls=acls, ocls=ocls, name=name, getter=getter: load_side_obligations(v1, acls, ocls, pred(name, getter))))
+    s.attempt_all(tasks)
     s.min_obligations = 20
     s.discharge_all()
     s.triage()
